@@ -1,7 +1,7 @@
 (* C03 — Requested tasks and their transitive dependencies run once, dependencies first.
    Statements + `exact` + Print Assumptions only.  `pick` is Go's unspecified map/set iteration order inside
    dag.Sort: the theorems hold for every pick that returns a permutation of what it is given. *)
-From Spok Require Import Base Graph GraphProofs Lexer Parser Vars Load LoadProofs.
+From Spok Require Import Base Graph GraphProofs Lexer Parser Vars Load LoadProofs RunCache RunCacheInst App AppProofs.
 Close Scope N_scope.
 From Coq Require Import Permutation.
 
@@ -42,6 +42,17 @@ Theorem C03_names_are_tasks : forall root vs doc name deps outs cmds t n,
   load_task root vs doc name deps outs cmds = Some t -> In (AIdent n) deps -> In n (lt_taskdeps t).
 Proof. exact ident_is_task_dependency. Qed.
 Print Assumptions C03_names_are_tasks.
+
+(* at the command line (selection composed with the run loop and the report): the tasks `spok [flags] [names]` reports, one entry per
+   task in execution order, are exactly the tasks reachable from the request (the names, or the default task, or the task clean
+   under --clean), each once, every dependency before its dependant; and no task outside that list had its commands started *)
+Theorem C03_invocation : forall pick defs vars s f req s' ob rs,
+  (forall k l, Permutation (pick k l) l) ->
+  invoke pick defs vars s f req = (s', ob) -> ob_stdout ob = SDJson rs ->
+  valid_run (gdefs defs) (effective_request defs f req) (map tr_name rs) /\
+  (forall n, In n (ob_executed ob) -> In n (map tr_name rs)).
+Proof. exact invocation_runs_the_closure. Qed.
+Print Assumptions C03_invocation.
 
 (* non-vacuity: c(b) b(a) a() d(): request c under a reversing iteration order; x(y) y(x) is a cycle *)
 Example C03_nonvacuous :
